@@ -123,6 +123,11 @@ class Oracles:
                            {"step": k, "before": bd, "after": ad})
             self.role_held = True
             self.promoted[who] = True
+        if name == "Demote" and op[0] == "Do" and r == "ROk" and bd["cfg"]["submitter"] != w.hosts[hi]:
+            # the code's own guard (am_i_submitter): only the host named in the file may give the role up
+            self._viol("foreign-host-demote",
+                       "demote_from_submitter succeeded for a handle on host %s while the file named submitter %s"
+                       % (w.hosts[hi], bd["cfg"]["submitter"]), {"step": k, "handle": hi, "before": bd, "after": ad})
         if name == "Demote" and op[0] == "Do":
             if not self.promoted.get(hi, False) and hi < len(w.handles):
                 self.protocol_broken = True     # the sequence itself leaves the CLI protocol
@@ -158,7 +163,8 @@ def _expected_cfg(op, cfg, host):
     c = _strip(cfg)
     if op[0] == "Prep":
         c["complete"] = False
-        c["submitted"] = op[2]
+        c["canceled"] = False
+        c["submitted"] = 0      # recounted from the job table; every job of this driver is NOT_SUBMITTED
         return c
     name = op[2]
     if name == "Promote":
@@ -361,6 +367,282 @@ def _flat(op):
     return tuple(tuple(x) if isinstance(x, list) else x for x in op)
 
 
+
+# ------------------------------------------------------------------------------------------------
+# the real CLI call sites
+# ------------------------------------------------------------------------------------------------
+NEUTRAL_HOPS = {"mark_complete": "HMarkComplete", "mark_canceled": "HMarkCanceled",
+                "update_job_status": "(HUpdate 0 0 [])", "complete_hpc_job_id": "(HCompleteHpc 0)",
+                "prepare_for_resubmission": "(HPrepMutate 0)", "serialize": "HSerialize",
+                "serialize_jobs": "HSerializeJobs", "deserialize_jobs": "HReloadJobs",
+                "promote_to_submitter": "HPromote", "demote_from_submitter": "HDemote"}
+
+
+class Recorder:
+    """Wraps the real Cluster class: per handle object the list of local events
+    ('Loaded', promoted) / (method, result)."""
+
+    def __init__(self, cl):
+        self.cl = cl
+        self.events = {}      # id(handle) -> list
+        self.order = []       # handles in creation order
+        self._saved = {}
+
+    def _new(self, h, first):
+        self.events[id(h)] = [first]
+        self.order.append(h)
+
+    def __enter__(self):
+        C = self.cl.Cluster
+        rec = self
+        self._saved["deserialize"] = C.__dict__["deserialize"]
+        self._saved["create"] = C.__dict__["create"]
+        orig_des = C.deserialize.__func__
+        orig_create = C.create.__func__
+
+        def deserialize(cls, path, try_promote_to_submitter=False, deserialize_jobs=False):
+            c, promoted = orig_des(cls, path, try_promote_to_submitter=try_promote_to_submitter,
+                                   deserialize_jobs=deserialize_jobs)
+            rec._new(c, ("Loaded", bool(promoted)))
+            return c, promoted
+
+        def create(cls, *a, **k):
+            c = orig_create(cls, *a, **k)
+            rec._new(c, ("Created", True))
+            return c
+        C.deserialize = classmethod(deserialize)
+        C.create = classmethod(create)
+        for name in NEUTRAL_HOPS:
+            orig = getattr(C, name)
+            self._saved[name] = orig
+
+            def wrapper(self_, *a, __orig=orig, __name=name, **k):
+                try:
+                    val = __orig(self_, *a, **k)
+                except Exception as e:  # noqa: BLE001
+                    rec.events.setdefault(id(self_), []).append((__name, cd.classify(e)))
+                    raise
+                r = "ROk"
+                if __name == "promote_to_submitter":
+                    r = "RBool true" if val else "RBool false"
+                rec.events.setdefault(id(self_), []).append((__name, r))
+                return val
+            setattr(C, name, wrapper)
+        return self
+
+    def __exit__(self, *a):
+        C = self.cl.Cluster
+        for name, orig in self._saved.items():
+            setattr(C, name, orig)
+
+
+def _lev_term(ev):
+    if ev[0] in ("Loaded",):
+        return "LLoaded %s" % cd.t_bool(ev[1])
+    r = ev[1]
+    if r.startswith("EXC:"):
+        r = "RValueError"
+    return "LOp %s %s" % (NEUTRAL_HOPS[ev[0]], cd.t_result(r))
+
+
+def _local_ok(events, promoted0):
+    """Python twin of the CLI bookkeeping: a demote while no own promotion is outstanding -> index"""
+    p = promoted0
+    for k, ev in enumerate(events):
+        if ev[0] in ("Loaded", "Created"):
+            p = ev[1]
+        elif ev[0] == "promote_to_submitter" and ev[1] == "RBool true":
+            p = True
+        elif ev[0] == "demote_from_submitter":
+            if not p:
+                return k
+            if ev[1] == "ROk":
+                p = False
+    return None
+
+
+class _Patches:
+    def __init__(self):
+        self.saved = []
+
+    def set(self, obj, name, val):
+        self.saved.append((obj, name, getattr(obj, name)))
+        setattr(obj, name, val)
+
+    def undo(self):
+        for obj, name, val in reversed(self.saved):
+            setattr(obj, name, val)
+
+
+def _body(kind, cluster):
+    """what the stubbed JobSubmitter methods do with the cluster"""
+    from jade.enums import Status
+    if kind == "raise":
+        raise RuntimeError("submit failed")
+    if kind == "update":
+        cluster.update_job_status([], [], [], set(), ["7"], 2)
+        return Status.IN_PROGRESS
+    if kind == "complete":
+        cluster.update_job_status([], [], [None], set(), [], 2)
+        cluster.mark_complete()
+        return Status.GOOD
+    if kind == "update-raise":
+        cluster.update_job_status([], [], [], set(), ["7"], 2)
+        raise RuntimeError("after update")
+    return Status.IN_PROGRESS
+
+
+def callsites(chk, tmp):
+    import jade.cli.try_submit_jobs as m_try
+    import jade.cli.cancel_jobs as m_cancel
+    import jade.cli.resubmit_jobs as m_resub
+    import jade.jobs.job_submitter as m_js
+    import jade.jobs.job_runner as m_jr
+    progs = {"try_submit_jobs": "prog_try_submit", "cancel_jobs": "prog_cancel", "resubmit_jobs": "prog_resubmit",
+             "run_submit_jobs": "prog_run_submit", "_complete_hpc_job": "prog_complete_hpc"}
+    cmp_ = core.CoqCompare("c10_cli", IMPORTS, "fun c => accepts (fst c) (snd c)", "Bool.eqb", "prog * list lev", "bool")
+    dist = {"runs": 0, "by_cli": {}, "handles": 0, "promoted_handles": 0, "demotes": 0, "exceptions_in_body": 0}
+    bodies = ["ok", "update", "complete", "raise", "update-raise"]
+    # (role held by: None | "other-host" | "same-host", submission complete?)
+    situations = [(None, False), (None, True), ("other-host", False), ("other-host", True), ("same-host", False),
+                  ("same-host", True)]
+
+    class StubSubmitter:
+        kind = "ok"
+
+        def submit_jobs(self, cluster, force_local=False):
+            return _body(StubSubmitter.kind, cluster)
+
+        def cancel_jobs(self, cluster):
+            if StubSubmitter.kind in ("raise", "update-raise"):
+                raise RuntimeError("cancel failed")
+            cluster.mark_canceled()
+
+    with cd.Patched() as p:
+        for cli in progs:
+            for held, complete in situations:
+                for body in bodies:
+                    if cli == "run_submit_jobs" and (held is not None or complete):
+                        continue
+                    w = None
+                    pt = _Patches()
+                    try:
+                        # --- prepare the directory with real Cluster calls
+                        if cli != "run_submit_jobs":
+                            w = cd.World(p, 0, tmp)
+                            creator = w.handles[0]
+                            if complete:
+                                creator.mark_complete()
+                            creator.demote_from_submitter()
+                            holder = None
+                            if held:
+                                p.host = cd.hostname(1 if held == "other-host" else 0)
+                                holder, ok = w.Cluster.deserialize(w.dir, try_promote_to_submitter=True, deserialize_jobs=True)
+                                assert ok
+                            outdir = w.dir
+                        else:
+                            outdir = tempfile.mkdtemp(prefix="verif_c10_rs_", dir=tmp)
+                        before = None if w is None else w.disk_view()
+                        p.host = cd.hostname(0)
+                        StubSubmitter.kind = body
+                        noop = lambda *a, **k: __import__("logging").getLogger("verif")  # noqa: E731
+                        for m in (m_try, m_cancel, m_resub):
+                            pt.set(m, "setup_logging", noop)
+                            if hasattr(m, "setup_event_logging"):
+                                pt.set(m, "setup_event_logging", noop)
+                            pt.set(m.JobSubmitter, "load", classmethod(lambda cls, out: StubSubmitter()))
+                        pt.set(m_cancel.time, "sleep", lambda s: None)
+                        pt.set(m_cancel, "run_command", lambda *a, **k: 0)
+                        pt.set(m_resub, "_get_jobs_to_resubmit", lambda *a, **k: {"j0", "j1"})
+                        pt.set(m_resub, "_update_with_blocking_jobs", lambda *a, **k: {})
+                        pt.set(m_resub, "_reset_results", lambda *a, **k: None)
+                        pt.set(m_js.JobSubmitter, "submit_jobs", lambda self, cluster, force_local=False: _body(body, cluster))
+                        pt.set(m_jr.time, "sleep", lambda s: None)
+                        outcome = None
+                        import contextlib
+                        import io
+                        with Recorder(p.cl) as rec, contextlib.redirect_stdout(io.StringIO()), contextlib.redirect_stderr(io.StringIO()):
+                            try:
+                                if cli == "try_submit_jobs":
+                                    m_try.try_submit_jobs.callback(outdir, False)
+                                elif cli == "cancel_jobs":
+                                    m_cancel.cancel_jobs.callback(outdir, True, False)
+                                elif cli == "resubmit_jobs":
+                                    m_resub.resubmit_jobs.callback(outdir, True, True, False, None, False)
+                                elif cli == "run_submit_jobs":
+                                    m_js.JobSubmitter.run_submit_jobs(cd.jade_config(), outdir)
+                                else:
+                                    jr = object.__new__(m_jr.JobRunner)
+                                    jr._output = outdir
+                                    jr._intf = type("I", (), {"get_current_job_id": lambda self: "7"})()
+                                    # a job id to complete: put it there unless the body wants the call to raise
+                                    if body not in ("raise", "update-raise") and holder is None:
+                                        hh, ok = w.Cluster.__dict__["deserialize"].__func__(w.Cluster, w.dir, True, True)
+                                        rec.events.pop(id(hh), None)
+                                        rec.order.remove(hh)
+                                        hh.update_job_status([], [], [], set(), ["7"], 2)
+                                        hh.demote_from_submitter()
+                                        rec.events.pop(id(hh), None)
+                                    jr._complete_hpc_job()
+                                outcome = "returned"
+                            except SystemExit as e:
+                                outcome = "exit %s" % (e.code,)
+                            except Exception as e:  # noqa: BLE001
+                                outcome = "raised " + type(e).__name__
+                            handles = [(h, rec.events.get(id(h), [])) for h in rec.order]
+                        after = None
+                        try:
+                            cfgf = os.path.join(outdir, p.cl.Cluster.CLUSTER_CONFIG_FILE)
+                            if os.path.exists(cfgf):
+                                after = cd.cfg_view(json.load(open(cfgf)))
+                        except Exception:  # noqa: BLE001
+                            after = None
+                        dist["runs"] += 1
+                        dist["by_cli"][cli] = dist["by_cli"].get(cli, 0) + 1
+                        if body in ("raise", "update-raise"):
+                            dist["exceptions_in_body"] += 1
+                        meta_base = {"cli": cli, "role_held_by": held, "submission_complete": complete, "body": body,
+                                     "outcome": outcome}
+                        any_promoted = False
+                        for h, evs in handles:
+                            dist["handles"] += 1
+                            created = evs and evs[0][0] == "Created"
+                            promoted0 = bool(created)
+                            if any(e[0] in ("Loaded", "Created") and e[1] for e in evs):
+                                dist["promoted_handles"] += 1
+                                any_promoted = True
+                            dist["demotes"] += sum(1 for e in evs if e[0] == "demote_from_submitter")
+                            bad_at = _local_ok(evs, promoted0)
+                            if bad_at is not None:
+                                chk.violation("cli-demote-without-promotion:" + cli,
+                                              "%s called demote_from_submitter although its own promotion was not outstanding" % cli,
+                                              dict(meta_base, events=evs, at=bad_at, component="jade/cli call site"))
+                            lev = [e for e in evs if e[0] != "Created"]
+                            cmp_.add("(%s, [%s])" % (progs[cli], "; ".join(_lev_term(e) for e in lev)), "true",
+                                     dict(meta_base, events=evs))
+                            chk.count(("cli", cli, held, complete, body, tuple(map(tuple, evs))))
+                        # D5: a CLI that was not promoted must leave a foreign role untouched
+                        if held and not any_promoted and before is not None and after is not None:
+                            if after["submitter"] != before["cfg"]["submitter"]:
+                                chk.violation("cli-cleared-foreign-role:" + cli,
+                                              "%s was not promoted but the submitter field changed from %s to %s"
+                                              % (cli, before["cfg"]["submitter"], after["submitter"]),
+                                              dict(meta_base, before=before["cfg"], after=after,
+                                                   events=[e for _, e in handles], component="jade/cli call site"))
+                        if dist["runs"] in (3, 40):
+                            chk.sample(dict(meta_base, events=[e for _, e in handles]))
+                    finally:
+                        pt.undo()
+                        if w is not None:
+                            w.close()
+    bad = cmp_.run()
+    chk.oblige("call-site programs accept every observed life of a handle in the real CLI callbacks (%d handles in %d runs)"
+               % (len(cmp_.cases), dist["runs"]), not bad, "first differing: %s" % bad[:5])
+    for i in bad[:3]:
+        chk.tie_broken("call-site program of Cluster.v does not accept what the real CLI did",
+                       json.dumps(cmp_.cases[i][2], default=str)[:2000])
+    chk.notes.setdefault("input_distribution", {})["cli_callsites"] = dist
+
 # ------------------------------------------------------------------------------------------------
 def run(chk):
     proofs_ok = core.standard_proof_phase(chk, "C10")
@@ -368,11 +650,7 @@ def run(chk):
     logging.disable(logging.CRITICAL)
     tmp = tempfile.mkdtemp(prefix="verif_c10_")
     try:
-        parts = [correspondence]
-        try:
-            from harness.props import c10_cli  # noqa: F401
-        except ImportError:
-            c10_cli = None
+        parts = [correspondence, callsites]
         for part in parts:
             if not proofs_ok and not (core.THEORIES / "Cluster.vo").exists():
                 break
